@@ -215,8 +215,10 @@ Fixpoint evalL (late : policy) (n : nat) (ft : ftab) (en : env) (o : list value)
               | Some (ps, forms) =>
                   match eval_argsS (evalL late n' ft) en o args with
                   | (AVals vs, o1) =>
-                      if Nat.ltb (List.length ps) (List.length vs) then (Err ETooMany, o1)
-                      else eval_bodyS (evalL late n' ft) (bind ps vs ++ en) o1 forms VNil
+                      match arity_err (List.length ps) (List.length vs) with
+                      | Some e => (Err e, o1)                 (* too many or too few arguments *)
+                      | None => eval_bodyS (evalL late n' ft) (bind ps vs ++ en) o1 forms VNil
+                      end
                   | (AStop r, o1) => (r, o1)
                   end
               end
